@@ -61,7 +61,7 @@ def _tables():
 
 # Python type per XSD built-in as the property statement lists them (tags of tools/tables_c02.py)
 KIND_TAG = {"string": 0, "int": 1, "long": 1, "boolean": 2, "decimal": 3, "float": 4, "double": 4, "date": 5,
-            "time": 6, "dateTime": 7}
+            "time": 6, "dateTime": 7, "anyType": 0, "anySimpleType": 0}
 
 
 # ---------------------------------------------------------------------------
@@ -168,6 +168,23 @@ def add_simple_types(rng, S):
     return out
 
 
+ANY_KINDS = ("anyType", "anySimpleType")
+# time zone designators: UTC in its three spellings, offsets east and west, west of UTC by less
+# than an hour, the extremes
+ZONES = ["Z", "Z", "+00:00", "-00:00", "+01:00", "-05:00", "+05:30", "-00:30", "-00:01", "-00:59", "+00:30",
+         "+14:00", "-12:00", "-10:31", "+13:45"]
+
+
+def add_any_members(rng, S):
+    """members declared xsd:anyType / xsd:anySimpleType on sequences of existing types"""
+    hosts = [t for t in S.types if t.content and t.content[0].kind == "sequence"]
+    k = 0
+    for t in rng.sample(hosts, min(len(hosts), rng.choice([0, 1, 1, 2]))):
+        k += 1
+        t.content[0].kids.append(F.Elem("v%d" % k, t.ns, S.namespaces[t.ns][1], ("b", rng.choice(ANY_KINDS)),
+                                        opt=True, multi=rng.random() < 0.4, nillable=False))
+
+
 class Plan(object):
     """abstract value -> (document plan, expected Python data), by the rules
     in the property statement."""
@@ -185,8 +202,41 @@ class Plan(object):
     def leaf(self, e_name, ns, kind, v):
         _, py, text = v
         rng = self.rng
+        attrs = []
+        if kind in ANY_KINDS:
+            # declared xsd:anyType / xsd:anySimpleType: the occurrence names its type through
+            # xsi:type (a built-in), or carries none and is plain text
+            if rng.random() < 0.85:
+                kind = rng.choice(["int", "boolean", "decimal", "date", "string", "long", "double", "time", "dateTime"])
+                py, text = F.gen_leaf(rng, kind)
+                attrs.append((F.XSI, "type", ("q", F.XSD, kind)))
+                self.features.add("anyType-leaf-typed-by-xsi:type")
+            else:
+                kind = "string"
+                self.features.add("anyType-leaf-without-xsi:type")
+        elif kind == "decimal" and rng.random() < 0.07:
+            # a derived built-in named through xsi:type on a leaf declared with its base
+            kind = rng.choice(["int", "long"])
+            py = rng.randrange(-1000, 1000)
+            text = str(py)
+            attrs.append((F.XSI, "type", ("q", F.XSD, kind)))
+            self.features.add("derived-builtin-through-xsi:type")
+        elif kind == "long" and rng.random() < 0.07:
+            kind = "int"
+            py = rng.randrange(-1000, 1000)
+            text = str(py)
+            attrs.append((F.XSI, "type", ("q", F.XSD, kind)))
+            self.features.add("derived-builtin-through-xsi:type")
         if kind == "decimal":
             text = dec_canon(py)
+        if kind in ("time", "dateTime"):
+            # fractional seconds (to the microsecond) and a time zone designator
+            if "." not in text and rng.random() < 0.4:
+                text += "." + rng.choice(["5", "25", "125", "000001", "999999", "123456", "100"])
+                self.features.add("fractional-seconds")
+            if rng.random() < 0.6:
+                text += rng.choice(ZONES)
+                self.features.add("time-zone-designator")
         canon = text
         if kind in ("boolean", "int", "long", "decimal") and rng.random() < 0.3:
             text = lexical_variant(rng, kind, text)
@@ -200,8 +250,7 @@ class Plan(object):
             elif r < 0.28:
                 text = ""
                 self.features.add("empty-string")
-        attrs = []
-        if rng.random() < 0.08:
+        if not attrs and rng.random() < 0.08:
             attrs.append((F.XSI, "type", ("q", F.XSD, kind)))
             self.features.add("xsi:type-on-builtin")
         tag = KIND_TAG[kind]
@@ -236,7 +285,7 @@ class Plan(object):
         if real is not declared:
             attrs.append((F.XSI, "type", ("q", S.namespaces[real.ns][0], real.name)))
             self.features.add("xsi:type-derived")
-        elif rng.random() < 0.12:
+        elif rng.random() < 0.22:
             attrs.append((F.XSI, "type", ("q", S.namespaces[real.ns][0], real.name)))
             self.features.add("xsi:type-same")
         fields = dict(v.fields)
@@ -552,10 +601,18 @@ class Writer(object):
         self.used_here = set()
         parent_local = self.local_stack[-1] if self.local_stack else {}
         # the element's own name
+        own_type_ns = [av[1] for (_, _, av) in x.attrs if isinstance(av, tuple) and av[1] == x.ns]
         if x.ns is None:
             if self.lookup(merged, "") not in (None, ""):
                 own[""] = ""
                 self.features.add("xmlns-empty")
+            qname = x.name
+        elif self.unprefixed_qname and own_type_ns and rng.random() < 0.75:
+            # the element lives in the namespace of the type its xsi:type names: both written
+            # without prefix under a default namespace declaration
+            if self.lookup(merged, "") != x.ns:
+                own[""] = x.ns
+            self.features.add("default-namespace")
             qname = x.name
         else:
             p = self.prefix_for(scope, own, x.ns, pool)
@@ -850,8 +907,8 @@ def build_case(S, I, P, T, style, wq, raw, info, expected, impl, tables, ops=(),
     response wrapper element; ops = the wrapped operations (their wrapper elements are global elements)"""
     names, uris, kinds = tables
     globals_ = []
-    for opname, tj in ops:
-        globals_.append("((%s, %s), (%s, %s))" % (cN(1), cN(I(opname + "Response")), cN(tj.ns + 1), cN(I(tj.name))))
+    for wname, tj in ops:
+        globals_.append("((%s, %s), (%s, %s))" % (cN(1), cN(I(wname)), cN(tj.ns + 1), cN(I(tj.name))))
     simple = ["((%s, %s), %s)" % (cN(t.ns + 1), cN(I(t.name)), cN(T.BUILTIN_INDEX[t.builtin]))
               for t in S.types if isinstance(t, SimpleType)]
     if style[0] == "wrapped":
@@ -890,30 +947,35 @@ class FamRenderer(F.Renderer):
 
 
 class Op2(object):
-    """An operation with its OUTPUT message: style 'wrapped' (out_type = type of the
-    <name>Response wrapper element), 'bare' (out_parts = [(global element name, tref)]),
-    'rpc' (out_parts = [(part name, tref)], body_ns = namespace index of soap:body)."""
+    """An operation with its OUTPUT message: style 'wrapped' (out_type = type of the wrapper
+    element `wrapper`, default <name>Response), 'bare' (out_parts = [(global element name, tref)]),
+    'rpc' (out_parts = [(part name, tref)], body_ns = namespace index of soap:body).
+    `port`: the port (with its own portType and binding) the operation belongs to; operation
+    names are unique per port only."""
 
-    def __init__(self, name, style, out_type=None, out_parts=None, body_ns=0):
+    def __init__(self, name, style, out_type=None, out_parts=None, body_ns=0, port=None, wrapper=None):
         self.name = name
         self.style = style
         self.out_type = out_type
         self.out_parts = out_parts or []
         self.body_ns = body_ns
+        self.port = port or ("rpc" if style == "rpc" else "document")
+        self.wrapper = wrapper or name + "Response"
 
 
 def render_ops2(S, ops, R=None):
-    """WSDL text for operations with empty input messages and the given outputs
-    (one portType + binding + port per style: port_document / port_rpc)."""
+    """WSDL text for operations with empty input messages and the given outputs: one service
+    with one portType + binding + port per Op2.port (port_document, port_rpc, port_document2 ...)."""
     R = R or FamRenderer(S)
     p0 = R.prefixes[0]
-    globals_, msgs, pops = [], [], []
-    bops = {"document": [], "rpc": []}
+    globals_, msgs = [], []
+    ports_ops = {}
+    order = []
     for op in ops:
         if op.style == "wrapped":
-            globals_.append('      <xsd:element name="%sResponse" type="%s"/>'
-                            % (op.name, R.tref(("n",) + tuple(op.out_type))))
-            outparts = '<wsdl:part name="parameters" element="%s:%sResponse"/>' % (p0, op.name)
+            globals_.append('      <xsd:element name="%s" type="%s"/>'
+                            % (op.wrapper, R.tref(("n",) + tuple(op.out_type))))
+            outparts = '<wsdl:part name="parameters" element="%s:%s"/>' % (p0, op.wrapper)
         elif op.style == "bare":
             outparts = ""
             for gname, tr in op.out_parts:
@@ -921,32 +983,34 @@ def render_ops2(S, ops, R=None):
                 outparts += '<wsdl:part name="p_%s" element="%s:%s"/>' % (gname, p0, gname)
         else:
             outparts = "".join('<wsdl:part name="%s" type="%s"/>' % (pn, R.tref(tr)) for pn, tr in op.out_parts)
-        msgs.append('  <wsdl:message name="%sIn"></wsdl:message>' % op.name)
-        msgs.append('  <wsdl:message name="%sOut">%s</wsdl:message>' % (op.name, outparts))
+        mn = "%s_%s" % (op.port, op.name)
+        msgs.append('  <wsdl:message name="%sIn"></wsdl:message>' % mn)
+        msgs.append('  <wsdl:message name="%sOut">%s</wsdl:message>' % (mn, outparts))
         pop = ('    <wsdl:operation name="%s"><wsdl:input message="%s:%sIn"/>'
-               '<wsdl:output message="%s:%sOut"/></wsdl:operation>' % (op.name, p0, op.name, p0, op.name))
+               '<wsdl:output message="%s:%sOut"/></wsdl:operation>' % (op.name, p0, mn, p0, mn))
         if op.style == "rpc":
             body = '<soap:body use="literal" namespace="%s"/>' % S.namespaces[op.body_ns][0]
-            bops["rpc"].append((pop, '    <wsdl:operation name="%s"><soap:operation soapAction="act_%s" style="rpc"/>'
-                                '<wsdl:input>%s</wsdl:input><wsdl:output>%s</wsdl:output></wsdl:operation>'
-                                % (op.name, op.name, body, body)))
+            bop = ('    <wsdl:operation name="%s"><soap:operation soapAction="act_%s" style="rpc"/>'
+                   '<wsdl:input>%s</wsdl:input><wsdl:output>%s</wsdl:output></wsdl:operation>'
+                   % (op.name, mn, body, body))
         else:
-            bops["document"].append((pop, '    <wsdl:operation name="%s"><soap:operation soapAction="act_%s" '
-                                     'style="document"/><wsdl:input><soap:body use="literal"/></wsdl:input>'
-                                     '<wsdl:output><soap:body use="literal"/></wsdl:output></wsdl:operation>'
-                                     % (op.name, op.name)))
+            bop = ('    <wsdl:operation name="%s"><soap:operation soapAction="act_%s" '
+                   'style="document"/><wsdl:input><soap:body use="literal"/></wsdl:input>'
+                   '<wsdl:output><soap:body use="literal"/></wsdl:output></wsdl:operation>' % (op.name, mn))
+        if op.port not in ports_ops:
+            ports_ops[op.port] = ("rpc" if op.style == "rpc" else "document", [])
+            order.append(op.port)
+        ports_ops[op.port][1].append((pop, bop))
     blocks = [R.schema_block(i, "\n".join(globals_) if i == 0 else "") for i in range(len(S.namespaces))]
     pieces, ports = [], []
-    for style in ("document", "rpc"):
-        if not bops[style]:
-            continue
-        pieces.append('  <wsdl:portType name="pt_%s">\n%s\n  </wsdl:portType>'
-                      % (style, "\n".join(a for a, _ in bops[style])))
+    for port in order:
+        style, pb = ports_ops[port]
+        pieces.append('  <wsdl:portType name="pt_%s">\n%s\n  </wsdl:portType>' % (port, "\n".join(a for a, _ in pb)))
         pieces.append('  <wsdl:binding name="b_%s" type="%s:pt_%s">\n'
                       '    <soap:binding style="%s" transport="http://schemas.xmlsoap.org/soap/http"/>\n%s\n'
-                      '  </wsdl:binding>' % (style, p0, style, style, "\n".join(b for _, b in bops[style])))
+                      '  </wsdl:binding>' % (port, p0, port, style, "\n".join(b for _, b in pb)))
         ports.append('    <wsdl:port name="port_%s" binding="%s:b_%s">'
-                     '<soap:address location="http://unused.invalid/%s"/></wsdl:port>' % (style, p0, style, style))
+                     '<soap:address location="http://unused.invalid/%s"/></wsdl:port>' % (port, p0, port, port))
     return ("""<?xml version='1.0' encoding='UTF-8'?>
 <wsdl:definitions targetNamespace="%s" %s
  xmlns:soap="http://schemas.xmlsoap.org/wsdl/soap/"
@@ -973,14 +1037,21 @@ def directed_interface():
     el = F.Elem("l", 0, True, ("b", "int"), opt=True, multi=True, nillable=True)
     ec = F.Elem("c", 0, True, ("n", 0, "T"), opt=True, nillable=True)
     ep = F.Elem("p", 0, True, ("n", 0, "P"), opt=True)
-    T_ = F.CType("T", 0, None, [F.Cont("sequence", False, [el, ec, ep])], [F.Attr("k", "string")])
+    ew = F.Elem("w", 0, True, ("b", "dateTime"), opt=True, multi=True)
+    ea = F.Elem("a", 0, True, ("b", "time"), opt=True, multi=True)
+    ev = F.Elem("v", 0, True, ("b", "anyType"), opt=True, multi=True)
+    eu = F.Elem("u", 0, True, ("b", "anySimpleType"), opt=True)
+    T_ = F.CType("T", 0, None, [F.Cont("sequence", False, [el, ec, ep, ew, ea, ev, eu])], [F.Attr("k", "string")])
     P_ = SimpleType("P", 0, "decimal", None, [F.Attr("cur", "string")])
     ex = F.Elem("x", 1, True, ("b", "string"), opt=True)
-    D_ = F.CType("D", 1, (0, "T"), [F.Cont("sequence", False, [ex])], [])
+    ed = F.Elem("d", 1, True, ("n", 1, "D"), opt=True)
+    D_ = F.CType("D", 1, (0, "T"), [F.Cont("sequence", False, [ex, ed])], [])
+    ey = F.Elem("y", 1, True, ("b", "string"), opt=True)
+    D2_ = F.CType("D2", 1, (1, "D"), [F.Cont("sequence", False, [ey])], [])
     er = F.Elem("r", 0, True, ("n", 0, "T"), opt=True, nillable=True)
     em = F.Elem("m", 0, True, ("n", 0, "T"), opt=True, multi=True, nillable=True)
     W_ = F.CType("W", 0, None, [F.Cont("sequence", False, [er, em])], [])
-    S.types = [T_, D_, W_, P_]
+    S.types = [T_, D_, W_, P_, D2_]
     return S
 
 
@@ -1013,6 +1084,26 @@ def directed_documents(I):
         ("envelope-attribute-on-payload",
          w('<r E:encodingStyle="http://schemas.xmlsoap.org/soap/encoding/" k="v"><l E:encodingStyle="">5</l></r>'),
          obj("None", [("r", obj(tT, [("_k", leaf(0, "v")), ("l", lst([leaf(1, "5")]))]))])),
+        # time zone designators, incl. west of UTC by less than an hour, and fractional seconds
+        ("time-zones", w('<r><w>2021-03-04T10:00:00-00:30</w><w>2021-03-04T10:30:00Z</w><w>2021-03-04T10:00:00.5+14:00</w>'
+                         '<a>10:00:00-00:30</a><a>10:00:00-00:01</a><a>23:59:59.999999+05:30</a><a>10:30:00Z</a></r>'),
+         obj("None", [("r", obj(tT, [
+             ("w", lst([leaf(7, "2021-03-04T10:00:00-00:30"), leaf(7, "2021-03-04T10:30:00+00:00"),
+                        leaf(7, "2021-03-04T10:00:00.500000+14:00")])),
+             ("a", lst([leaf(6, "10:00:00-00:30"), leaf(6, "10:00:00-00:01"), leaf(6, "23:59:59.999999+05:30"),
+                        leaf(6, "10:30:00+00:00")]))]))])),
+        # leaves declared xsd:anyType / xsd:anySimpleType typed by their xsi:type
+        ("anytype-leaves", w('<r xmlns:x="http://www.w3.org/2001/XMLSchema"><v xsi:type="x:int">42</v>'
+                             '<v xsi:type="x:decimal">1.50</v><v xsi:type="x:date">2020-02-29</v>'
+                             '<v xsi:type="x:string">7</v><v>plain</v><u xsi:type="x:boolean">true</u></r>'),
+         obj("None", [("r", obj(tT, [
+             ("v", lst([leaf(1, "42"), leaf(3, "1.5"), leaf(5, "2020-02-29"), leaf(0, "7"), leaf(0, "plain")])),
+             ("u", leaf(2, "true"))]))])),
+        # an unprefixed xsi:type value on an element that lives in the default namespace, which is
+        # not the first schema's: resolved in the namespace in scope
+        ("unprefixed-qname-in-own-namespace",
+         w('<m xsi:type="t:D"><d xmlns="urn:fam:ns1" xsi:type="D2"><y>b</y></d></m>'),
+         obj("None", [("m", lst([obj(tD, [("d", obj("(Some (%s, %s))" % (cN(2), cN(I("D2"))), [("y", leaf(0, "b"))]))])]))])),
         ("empty-complex", w('<r/>'),
          obj("None", [("r", obj(tT, []))])),
         ("empty-leaf", w('<m xsi:type="t:D"><x xmlns="urn:fam:ns1"></x></m>'),
@@ -1101,13 +1192,14 @@ def run(ck):
 
     rng = ck.rng
     quick = ck.tier == "quick"
-    n_schemas = 45 if quick else 250
+    n_schemas = 40 if quick else 220
     n_values = 2 if quick else 3
     n_pres = 4 if quick else 6
     n_values_other = 1 if quick else 2           # per bare / rpc operation
     n_pres_other = 3 if quick else 5
 
     cases, meta = [], []
+    first_calls = {}
 
     def one_case(S, wsdl, client, port, opname, style, wq, make, tag, profile=None, ops=(), extra_kinds=(),
                  unwrap=True):
@@ -1127,13 +1219,18 @@ def run(ck):
             info = U.expat_parse(data)
         except Exception as e:  # noqa
             raise RuntimeError("the writer produced an ill-formed document: %r\n%r" % (e, data))
+        # what was invoked before on this client under the same operation name through ANOTHER port
+        hist = first_calls.setdefault(id(client), {}).setdefault(opname, [])
+        history = [(p_, d_.decode("utf-8")) for p_, d_ in hist if p_ != port]
+        if not any(p_ == port for p_, _ in hist):
+            hist.append((port, data))
         kind, r = run_impl(client, opname, data, port)
         impl = "(DOk %s)" % canon(T, r, dict(tables[1]), I) if kind == "ok" else kind
         xk = [(I(n), T.BUILTIN_INDEX[b]) for n, b in extra_kinds]
         c = build_case(S, I, P, T, style, (wq[0], I(wq[1]) if wq[1] else 0), raw_to_coq(raw), info_to_coq(info),
                        expected, impl, tables, ops=ops, extra_kinds=xk)
         cases.append(c.replace("NAMES", names_literal(I), 1))
-        meta.append(dict(wsdl=wsdl, op=opname, port=port, unwrap=unwrap, reply=data, profile=pname,
+        meta.append(dict(wsdl=wsdl, op=opname, port=port, unwrap=unwrap, history=history, reply=data, profile=pname,
                          result=repr(r)[:600], kind=kind, expected=expected,
                          features=sorted(plan.features | wr.features)))
         ck.seen(tag, nontrivial=True)
@@ -1184,8 +1281,25 @@ def run(ck):
         S = F.gen_schema(rng)
         complex_types = list(S.types)
         add_simple_types(rng, S)
+        add_any_members(rng, S)
+        nct = len(complex_types)
         wops = [("op%d" % k, t) for k, t in enumerate(complex_types)]
         ops = [Op2(n, "wrapped", out_type=(t.ns, t.name)) for n, t in wops]
+        # a SECOND document/literal port of the same service (its own portType and binding) whose
+        # operations have the SAME NAMES but other output messages: the wrapper <name>ResponseB of
+        # another type, or (single type) one built-in part
+        wops2 = []
+        for k, (n, t) in enumerate(wops):
+            if nct > 1:
+                t2 = complex_types[(k + 1) % nct]
+                wops2.append((n, ("wrapped", t2)))
+                ops.append(Op2(n, "wrapped", out_type=(t2.ns, t2.name), port="document2", wrapper=n + "ResponseB"))
+            else:
+                parts2 = [("b2g%d" % k, ("b", rng.choice(F.BUILTINS)))]
+                wops2.append((n, ("bare", parts2)))
+                ops.append(Op2(n, "bare", out_parts=parts2, port="document2"))
+        wrappers = [(n + "Response", t) for n, t in wops] + \
+                   [(n + "ResponseB", st[1]) for n, st in wops2 if st[0] == "wrapped"]
         # document/literal bare: one built-in part; several parts; one complex part (needs unwrap=False:
         # with the default options suds treats a single complex element part as a wrapper)
         bare1 = [("b1g0", ("b", rng.choice(F.BUILTINS)))]
@@ -1195,9 +1309,12 @@ def run(ck):
         rpc_ns = rng.randrange(len(S.namespaces))
         rpc1 = [("r1p0", part_tref(S))]
         rpcN = [("rNp%d" % i, part_tref(S)) for i in range(rng.choice([2, 2, 3]))]
+        # a second rpc/literal port with a same-named operation and other parts
+        rpc1b = [("r2p%d" % i, part_tref(S)) for i in range(rng.choice([1, 2]))]
         ops += [Op2("bare1", "bare", out_parts=bare1), Op2("bareN", "bare", out_parts=bareN),
                 Op2("bareC", "bare", out_parts=bareC),
-                Op2("rpc1", "rpc", out_parts=rpc1, body_ns=rpc_ns), Op2("rpcN", "rpc", out_parts=rpcN, body_ns=rpc_ns)]
+                Op2("rpc1", "rpc", out_parts=rpc1, body_ns=rpc_ns), Op2("rpcN", "rpc", out_parts=rpcN, body_ns=rpc_ns),
+                Op2("rpc1", "rpc", out_parts=rpc1b, body_ns=rpc_ns, port="rpc2")]
         wsdl = render_ops2(S, ops)
         try:
             client = U.client_from_wsdl(wsdl)
@@ -1206,28 +1323,14 @@ def run(ck):
             ck.failing_input("C02:wsdl-load", "generated WSDL could not be loaded: %r" % (e,),
                              {"wsdl": wsdl.decode("utf-8"), "error": repr(e)})
             continue
-        for k, (opname, t) in enumerate(wops):
-            for vi in range(n_values):
-                value = F.gen_object(rng, S, t, depth=0, typed=False)
-                for pi in range(n_pres):
-                    # the same abstract value under different presentations: the plan (nil vs
-                    # absent, xsi:type, string contents, lexical forms) is re-derived from a per-value sub-seed
-                    mk = Make(lambda plan, opname=opname, t=t, value=value: plan.reply(opname + "Response", t, value),
-                              _Sub(value, vi))
-                    one_case(S, wsdl, client, "port_document", opname, ("wrapped", t), (1, opname + "Response"),
-                             mk, (si, k, vi, pi), ops=wops)
-        # the other binding styles
-        others = [("bare1", "bare", bare1, client, 0), ("bareN", "bare", bareN, client, 0),
-                  ("rpc1", "rpc", rpc1, client, rpc_ns), ("rpcN", "rpc", rpcN, client, rpc_ns)]
-        if client_nounwrap is not None:
-            others.append(("bareC", "bare", bareC, client_nounwrap, 0))
-        for opname, style, parts, cl, bns in others:
+
+        def parts_cases(opname, style, parts, cl, bns, port, nv, npres, tagx):
             elems = [F.Elem(n, 0, style == "bare", tr, opt=False, multi=False, nillable=False) for n, tr in parts]
             xk = [(n, tr[1]) for n, tr in parts if tr[0] == "b"]
-            for vi in range(n_values_other):
+            for vi in range(nv):
                 values = [F.gen_value(rng, S, e, depth=1) for e in elems]
                 fp = "|".join(_fingerprint(v) for v in values)
-                for pi in range(n_pres_other):
+                for pi in range(npres):
                     if style == "bare":
                         fn = lambda plan, elems=elems, values=values: plan.parts(elems, values)      # noqa: E731
                         wq = (0, None)
@@ -1240,9 +1343,46 @@ def run(ck):
                     # rpc part accessors are declared optional (PartElement.optional), never repeating
                     delems = elems if style == "bare" else [
                         F.Elem(e.name, 0, False, e.tref, opt=True, multi=False, nillable=False) for e in elems]
-                    one_case(S, wsdl, cl, "port_rpc" if style == "rpc" else "port_document", opname,
-                             (style, delems), wq, mk, (si, opname, vi, pi), ops=wops, extra_kinds=xk,
-                             unwrap=cl is client)
+                    one_case(S, wsdl, cl, port, opname, (style, delems), wq, mk, (si, tagx, opname, vi, pi),
+                             ops=wrappers, extra_kinds=xk, unwrap=cl is client)
+
+        def wrapped_cases(opname, t, port, wrapper, nv, npres, tagx):
+            for vi in range(nv):
+                value = F.gen_object(rng, S, t, depth=0, typed=False)
+                for pi in range(npres):
+                    # the same abstract value under different presentations: the plan (nil vs
+                    # absent, xsi:type, string contents, lexical forms) is re-derived from a per-value sub-seed
+                    mk = Make(lambda plan, t=t, value=value: plan.reply(wrapper, t, value), _Sub(value, vi))
+                    one_case(S, wsdl, client, port, opname, ("wrapped", t), (1, wrapper), mk,
+                             (si, tagx, opname, vi, pi), ops=wrappers)
+
+        def second_port(k):
+            n, st = wops2[k]
+            if st[0] == "wrapped":
+                wrapped_cases(n, st[1], "port_document2", n + "ResponseB", 1, 2, "p2")
+            else:
+                parts_cases(n, "bare", st[1], client, 0, "port_document2", 1, 2, "p2")
+
+        # ONE client, both ports, both orders: the same-named operation is invoked through the
+        # second port before (odd k) or after (even k) the first invocation through the first port
+        for k, (opname, t) in enumerate(wops):
+            if k % 2 == 1:
+                second_port(k)
+            wrapped_cases(opname, t, "port_document", opname + "Response", n_values, n_pres, "p1")
+            if k % 2 == 0:
+                second_port(k)
+        # the other binding styles
+        if si % 2 == 1:
+            parts_cases("rpc1", "rpc", rpc1b, client, rpc_ns, "port_rpc2", 1, 2, "p2")
+        others = [("bare1", "bare", bare1, client, 0), ("bareN", "bare", bareN, client, 0),
+                  ("rpc1", "rpc", rpc1, client, rpc_ns), ("rpcN", "rpc", rpcN, client, rpc_ns)]
+        if client_nounwrap is not None:
+            others.append(("bareC", "bare", bareC, client_nounwrap, 0))
+        for opname, style, parts, cl, bns in others:
+            parts_cases(opname, style, parts, cl, bns, "port_rpc" if style == "rpc" else "port_document",
+                        n_values_other, n_pres_other, "p1")
+        if si % 2 == 0:
+            parts_cases("rpc1", "rpc", rpc1b, client, rpc_ns, "port_rpc2", 1, 2, "p2")
 
     ck.sample({"operation": meta[0]["op"], "reply": meta[0]["reply"].decode("utf-8")[:900],
                "returned": meta[0]["result"][:400]})
@@ -1320,7 +1460,8 @@ def judge(ck, cases, meta, res, proof_ok):
         m = meta[i]
         fl = [f for f in FLAGS if i in flagged[f]]
         payload = {"wsdl": m["wsdl"].decode("utf-8"), "operation": m["op"], "port": m.get("port", "port_document"),
-                   "unwrap": m.get("unwrap", True), "reply": m["reply"].decode("utf-8"),
+                   "unwrap": m.get("unwrap", True), "history": m.get("history", []),
+                   "reply": m["reply"].decode("utf-8"),
                    "returned": m["result"], "expected": m["expected"], "classes": fl, "case": cases[i][:20000]}
         what = ("%s(__inject reply) returned %s but the document encodes %s"
                 % (m["op"], m["result"][:300], m["expected"][:300]))
@@ -1374,6 +1515,9 @@ def replay(ck, payload):
     print(payload.get("what"))
     if "wsdl" in payload and "reply" in payload:
         client = U.client_from_wsdl(payload["wsdl"].encode("utf-8"), unwrap=payload.get("unwrap", True))
+        for p_, d_ in payload.get("history", []):
+            # the same-named operation invoked earlier through another port of the same client
+            print("first, through %s:" % p_, run_impl(client, payload["operation"], d_.encode("utf-8"), p_)[0])
         kind, r = run_impl(client, payload["operation"], payload["reply"].encode("utf-8"),
                            payload.get("port", "port_document"))
         print("reply:", payload["reply"])
